@@ -258,17 +258,24 @@ func dischargeEach(obls []*Obligation, dir string, timeoutS, seed, workers int) 
 			j.o.Notes = append(j.o.Notes, "solver output: "+firstLines(r.output, 6))
 		}
 	}
+	_ = run
 	for _, name := range coverOrder {
 		wg.Add(1)
 		sem <- struct{}{}
 		go func(js []job) {
 			defer wg.Done()
 			defer func() { <-sem }()
-			for i, j := range js {
-				if i >= 6 {
+			tried := 0
+			for _, j := range js {
+				if tried >= 24 {
 					break
 				}
-				run(j)
+				tried++
+				// satisfiability is all we need: one quick attempt per instance
+				r := runOne(context.Background(), solvers[0], j.file, 5, seed)
+				j.o.Status = r.status
+				j.o.Solver = r.solver
+				j.o.Time = r.secs
 				if j.o.Status == "sat" {
 					break
 				}
@@ -315,6 +322,7 @@ func dischargeEach(obls []*Obligation, dir string, timeoutS, seed, workers int) 
 	// few relevant invariants usually suffice); queries are generated here, sequentially.
 	// phase A1: ground instantiation (see inst.go): quantifier-free reduced queries
 	var afterGround []job
+	skipSubsets := map[*Obligation]bool{}
 	type gjob struct {
 		j    job
 		file string
@@ -348,6 +356,10 @@ func dischargeEach(obls []*Obligation, dir string, timeoutS, seed, workers int) 
 			}
 			g.j.o.Time += r.secs
 			mu.Lock()
+			if r.status == "sat" {
+				// even the instantiated hypotheses admit a counter-model: assumption subsets will not help
+				skipSubsets[g.j.o] = true
+			}
 			afterGround = append(afterGround, g.j)
 			mu.Unlock()
 		}(g)
@@ -370,7 +382,7 @@ func dischargeEach(obls []*Obligation, dir string, timeoutS, seed, workers int) 
 				qf = append(qf, p)
 			}
 		}
-		if len(qs) < 2 || o.Kind == "cover" || o.Kind == "canary" {
+		if len(qs) < 2 || o.Kind == "cover" || o.Kind == "canary" || skipSubsets[o] {
 			stillHard = append(stillHard, j)
 			continue
 		}
